@@ -268,3 +268,21 @@ MUTANTS += [
      "edits": [(SY, "            try:\n                self.accept(listener)\n                # Keep processing clients until no one is waiting. This\n                # prevents the need to select() for every client that we\n                # process.\n                continue", "            try:\n                self.accept(listener)\n                continue") if False else
                (BW, "    def handle_exit(self, sig, frame):\n        self.alive = False", "    def handle_exit(self, sig, frame):\n        self.alive = False\n        for s in self.sockets:\n            s.close()")]},
 ]
+
+MUTANTS += [
+    # ---- C14 -------------------------------------------------------------------------------
+    {"name": "c14-unlink-ignores-upgrade-state", "prop": "C14", "checks": ["C14"],
+     "edits": [(AR, "            self.reexec_pid == self.master_pid == 0\n            and not self.systemd", "            not self.systemd")]},
+    {"name": "c14-gunicorn-fd-not-passed", "prop": "C14", "checks": ["C14"],
+     "edits": [(AR, "            environ['GUNICORN_FD'] = ','.join(\n                str(lnr.fileno()) for lnr in self.LISTENERS)", "            environ['GUNICORN_FD'] = ''")]},
+    {"name": "c14-reexec-pid-never-reset", "prop": "C14", "checks": ["C14"],
+     "edits": [(AR, "                if self.reexec_pid == wpid:\n                    self.reexec_pid = 0", "                if self.reexec_pid == wpid:\n                    pass")]},
+    {"name": "c14-no-pidfile-rename-on-promotion", "prop": "C14", "checks": ["C14"],
+     "edits": [(AR, "            if self.pidfile is not None:\n                self.pidfile.rename(self.cfg.pidfile)", "            pass")]},
+    {"name": "c14-second-usr2-not-ignored", "prop": "C14", "checks": ["C14"],
+     "edits": [(AR, "        if self.reexec_pid != 0:\n            self.log.warning(\"USR2 signal ignored. Child exists.\")\n            return", "        if False:\n            return")]},
+    {"name": "c14-new-master-uses-plain-pidfile-name", "prop": "C14", "checks": ["C14"],
+     "edits": [(AR, "            if self.master_pid != 0:\n                pidname += \".2\"", "            if False:\n                pidname += \".2\"")]},
+    {"name": "c14-promotion-check-skipped", "prop": "C14", "checks": ["C14"],
+     "edits": [(AR, "        if self.master_pid != os.getppid():", "        if self.master_pid != os.getppid() and os.getppid() == 1:")]},
+]
